@@ -3,6 +3,8 @@
 Prints one line per patch: SILENT or the rule instances that fired (= false alarms to be fixed in the rules)."""
 import os, re, subprocess, sys
 W = os.environ.get("MUTW", "/var/tmp/mut")
+if not os.path.isdir(W):      # scratch worktree of /repo, created on demand (remove it with `git -C /repo worktree remove --force`)
+    __import__("subprocess").run(["git", "-C", "/repo", "worktree", "add", "-q", "--detach", W, "HEAD"])
 V = "/verif"
 props = sorted(f[:-3] for f in os.listdir(V + "/rules") if re.match(r"C\d+\.py$", f))
 head = subprocess.check_output(["git", "-C", "/repo", "rev-parse", "HEAD"], text=True).strip()
